@@ -15,6 +15,7 @@
 package ice
 
 import (
+	"bytes"
 	"fmt"
 
 	"github.com/RoaringBitmap/roaring"
@@ -112,6 +113,13 @@ func (d *Dictionary) Close() error {
 func (d *Dictionary) Iterator(a segment.Automaton,
 	startKeyInclusive, endKeyExclusive []byte) segment.DictionaryIterator {
 	if d.fst != nil {
+		if startKeyInclusive != nil && endKeyExclusive != nil &&
+			bytes.Compare(startKeyInclusive, endKeyExclusive) >= 0 {
+			// empty range: vellum would seek to an exact match of the start
+			// key without testing it against the (equal) end key
+			return emptyDictionaryIterator
+		}
+
 		rv := &DictionaryIterator{
 			d: d,
 		}
